@@ -170,6 +170,9 @@ func genProj(r *rng, spare int) *Proj {
 			// sources=glob([...]) evaluated in the package directory; the root package's `**` patterns walk the whole project
 			t.Glob = []string{"**/*.txt", "*.txt", "d0/**"}[r.below(3)]
 		}
+		if t.Glob == "" && r.chance(15) {
+			t.SelfLists = true // the body works on self.sources / self.dependencies / self.generates
+		}
 		t.Always = r.chance(4)
 		switch r.below(10) {
 		case 0, 1, 2:
@@ -575,7 +578,9 @@ func (g *gen) uniformEdit() {
 		return
 	}
 	t := live[r.below(len(live))]
-	switch r.below(16) {
+	switch r.below(18) {
+	case 16, 17: // the order / multiplicity of the entries of sources=, deps=, generates= (D32)
+		g.listEdit(t)
 	case 0, 1, 2, 3:
 		g.semanticEdit(t)
 	case 4:
@@ -645,6 +650,38 @@ func (g *gen) uniformEdit() {
 		}
 	case 15:
 		g.edit(Edit{Kind: "doc", Target: t.Label()})
+	}
+}
+
+// listEdit: reorder the entries of one of the target's lists, or repeat an entry: the sets stay what they were
+func (g *gen) listEdit(t *Tgt) {
+	r := g.r
+	distinct := func(xs []string) bool {
+		for _, x := range xs {
+			if x != xs[0] {
+				return true
+			}
+		}
+		return false
+	}
+	var opts []Edit
+	if distinct(t.Srcs) {
+		opts = append(opts, Edit{Kind: "reorder", Target: t.Label(), Name: "srcs"})
+	}
+	if distinct(t.Deps) {
+		opts = append(opts, Edit{Kind: "reorder", Target: t.Label(), Name: "deps"})
+	}
+	if distinct(t.Gens) {
+		opts = append(opts, Edit{Kind: "reorder", Target: t.Label(), Name: "gens"})
+	}
+	if n := len(t.Srcs); n > 0 && n < 5 {
+		opts = append(opts, Edit{Kind: "dup", Target: t.Label(), Name: "srcs", Val: r.below(n)})
+	}
+	if n := len(t.Deps); n > 0 && n < 5 {
+		opts = append(opts, Edit{Kind: "dup", Target: t.Label(), Name: "deps", Val: r.below(n)})
+	}
+	if len(opts) > 0 {
+		g.edit(opts[r.below(len(opts))])
 	}
 }
 
